@@ -197,6 +197,19 @@ def replay_pinhole():
         mass[(qc < q[i] - 2.5 * s[i]) | (qc > q[i] + 3.0 * s[i])] = 0
         want[:, i] = mass / mass.sum()
     bad = not np.allclose(W, want, rtol=1e-12, atol=1e-15) or W.min() < 0 or not np.allclose(W.sum(axis=0), 1)
+    if not bad:
+        # a window that crosses q = 0: the calculation grid has negative points and bin edges
+        qc = np.linspace(-0.03, 0.08, 45)
+        q, s = np.array([0.01]), np.array([0.012])
+        W = resolution.pinhole_resolution(qc, q, s)
+        e = np.hstack([qc[0] - (qc[1] - qc[0]) / 2, (qc[1:] + qc[:-1]) / 2, qc[-1] + (qc[-1] - qc[-2]) / 2])
+        mass = erf((e[1:] - q[0]) / (np.sqrt(2.0) * s[0])) - erf((e[:-1] - q[0]) / (np.sqrt(2.0) * s[0]))
+        mass[(qc < q[0] - 2.5 * s[0]) | (qc > q[0] + 3.0 * s[0])] = 0
+        want = (mass / mass.sum())[:, None]
+        bad = not np.allclose(W, want, rtol=1e-12, atol=1e-15)
+        if bad:
+            return bad, {"call": "pinhole_resolution(q_calc=linspace(-0.03,0.08,45), q=[0.01], sigma=[0.012]): window crosses q=0",
+                         "real": W[:8, 0].tolist(), "spec": want[:8, 0].tolist()}
     return bad, {"call": "pinhole_resolution(irregular q_calc, q=[0.035,0.1], sigma=[0.01,0.03])",
                  "real": W.tolist(), "spec": want.tolist()}
 
